@@ -65,7 +65,8 @@ def hexOfText (t : Text) : String :=
   bytes.foldl (fun acc b => acc ++ toHex b.toNat 2) ""
 
 def textOfHex (s : String) : Option Text := do
-  let cs := s.toList
+  if !s.startsWith "h" then none
+  let cs := (s.drop 1).toString.toList
   if cs.length % 2 ≠ 0 then none
   let rec go : List Char → List UInt8 → Option (List UInt8)
     | a :: b :: rest, acc => do
@@ -315,6 +316,106 @@ def step (line impl : String) : String × Verdict :=
         (out, v)
       else bad
     | _, _, _, _, _ => bad
+  | ["fit", t, a] =>
+    match W.find t, C.parse a with
+    | some T, some a =>
+      if T.kind != .withRef then bad else
+      let r := fit R (T.qt R) a
+      let out := resStr (qStr C) r
+      let v : Verdict :=
+        match parseQ C impl, R.val a with
+        | some (w, z), some x =>
+          match R.val (T.scaleOf R w), R.val z with
+          | some sw, some zv =>
+            let E := (eligible (T.qt R)).filterMap (fun u => R.val (T.scaleOf R u))
+            let wElig := (eligible (T.qt R)).contains w || T.isAmount
+            if T.isAmount then check (R.same z a) "fitting a dimensionless amount must return it unchanged"
+            else
+              (Oracle.c05fit E wElig sw x 0).and
+                (check (ratAbs (zv * sw - x) ≤ ratAbs sw * M.E (x / sw) || !(M.safe (x / sw + M.E (x / sw))))
+                  "fitted value does not preserve the magnitude")
+          | _, _ => .skip "non-finite"
+        | _, _ => if impl.startsWith "panic:" then .skip "panic" else .skip "non-finite or unparsed"
+      (out, v)
+    | _, _ => bad
+  | ["fsym", t, h] =>
+    match W.find t, textOfHex h with
+    | some T, some sym =>
+      let r := (List.range T.n).find? (fun u => (T.units[u]?.map (·.symbol)) == some sym)
+      let f := match r with
+        | some u => toString u | none => "none"
+      let out := f ++ " " ++ f
+      (out, check (impl == out) "lookup by symbol is not the first unit (in iteration order) with that symbol")
+    | _, _ => bad
+  | ["fscale", t, a] =>
+    match W.find t, C.parse a with
+    | some T, some a =>
+      if T.kind != .withRef then bad else
+      let r := unitFromScale R (T.qt R) a
+      let f := match r with
+        | some u => toString u | none => "none"
+      let out := f ++ " " ++ f
+      (out, check (impl == out) "lookup by scale is not the first unit (in iteration order) with that scale")
+    | _, _ => bad
+  | [op, l, r, o, i, a, j, b] =>
+    match W.find l, W.find r, W.find o, i.toNat?, C.parse a, j.toNat?, C.parse b with
+    | some TL, some TR, some TO, some i, some a, some j, some b =>
+      if !(op == "dmul" || op == "ddiv") then bad else
+      if !(TL.kind == .withRef && TR.kind == .withRef && TO.kind == .withRef) then bad else
+      let isMul := op == "dmul"
+      let x : Q A Nat := ⟨a, i⟩
+      let y : Q A Nat := ⟨b, j⟩
+      let res := if isMul then dmul R (TL.qt R) (TR.qt R) (TO.qt R) x y
+                 else ddiv R (TL.qt R) (TR.qt R) (TO.qt R) x y
+      let one := resStr (qStr C) res
+      let out := one ++ "|" ++ one ++ "|" ++ one ++ "|" ++ one
+      let forms := impl.splitOn "|"
+      let v : Verdict :=
+        if forms.length != 4 then .skip "unparsed impl output"
+        else if !(forms.all (· == forms.head!)) then .fail "owned/borrowed operand forms give different results"
+        else match parseQ C forms.head! with
+          | none => if impl.startsWith "panic:" then .skip "panic" else .skip "unparsed impl output"
+          | some (w, z) =>
+            if w ≥ TO.n then .fail "result unit is not a unit of the result quantity" else
+            let sL := TL.scaleOf R i
+            let sR := TR.scaleOf R j
+            let opA (p q : A) : Res A := if isMul then R.mul p q else R.div p q
+            let opQ (p q : Rat) : Rat := if isMul then p * q else p / q
+            let sw := R.val (TO.scaleOf R w)
+            let pa : Option Rat := do
+              let p ← R.val a
+              let q ← R.val b
+              if !isMul && q == 0 then none else pure (opQ p q)
+            let ps : Option Rat := do
+              let p ← R.val sL
+              let q ← R.val sR
+              pure (opQ p q)
+            let magV := Oracle.c04 M pa ps sw (R.val z)
+            let refV : Verdict :=
+              if some i == TL.refIx && some j == TR.refIx then
+                check (some w == TO.refIx) "operands in reference units must give a result in the reference unit"
+              else .ok
+            let unitV : Verdict :=
+              match opA sL sR with
+              | .error _ => .skip "scale product panics"
+              | .ok sc =>
+                let natural := (List.range TO.n).any (fun u => R.beq (TO.scaleOf R u) sc)
+                if natural then
+                  (check (R.beq (TO.scaleOf R w) sc) "a unit with the product/quotient of the operand scales exists but was not used").and
+                    (match opA a b with
+                     | .ok own => check (R.same z own) "amount is not exactly the product/quotient of the operand amounts"
+                     | .error _ => .skip "amount product panics")
+                else if TO.isAmount then .ok
+                else match pa, ps, sw, R.val z with
+                  | some pa, some ps, some sw, some zv =>
+                    let mag := zv * sw
+                    let tol := 8 * (M.E mag + ratAbs sw * M.E (mag / sw) + ratAbs pa * M.E ps + ratAbs ps * M.E pa)
+                    let E := (eligible (TO.qt R)).filterMap (fun u => R.val (TO.scaleOf R u))
+                    Oracle.c05fit E ((eligible (TO.qt R)).contains w) sw mag tol
+                  | _, _, _, _ => .skip "non-finite"
+            (magV.and refV).and unitV
+      (out, v)
+    | _, _, _, _, _, _, _ => bad
   | ["new", t, i, a] =>
     match W.find t, i.toNat?, C.parse a with
     | some _, some i, some a =>
